@@ -10,7 +10,7 @@ from sa.effects import classify, open_mode
 from sa.flow import show, subterms
 from sa.model import AnalysisError, norm
 
-from .common import all_alternatives, alts, commands, is_call, is_const, need, prov, reach_from, unshipped_modules
+from .common import include_rules, all_alternatives, alts, commands, is_call, is_const, need, prov, reach_from, unshipped_modules
 
 READ_ONLY = ["verify", "diff", "info", "hash", "xsd_schema_check"]
 
@@ -292,6 +292,7 @@ def run(report, p):
     if not sess_sites:
         raise AnalysisError("flatten: no commit of a session built on the collection history found")
 
+    include_rules(report, p, 'c08', ['R8.1'], 'create writes into the ascmhl folder of the history a path is routed to: component-wise routing keeps it inside the histories in scope')
     report.not_decided += [
         "mtime of the root directory changing because an ascmhl folder is created inside it (effect of a documented write)",
         "effects of the external libraries themselves (lxml, pathspec, click ...) beyond the classification table",
